@@ -41,6 +41,9 @@ const (
 	opShutdownShortCtx = 17
 	opPeerReset        = 18
 	opShutdownAgain    = 19
+	opSendSlow         = 20 // like opSend, but the client is slow to read: the server's Write stays in progress
+	opResumeRead       = 21 // the slow client reads on
+	opBurst            = 22 // first op: cl connections are queued in the listener before Serve starts; the accept callback (if set) rejects when told a count > arg (arg 0: no limit)
 )
 
 const (
@@ -57,6 +60,8 @@ type lcClient struct {
 	conn    *memConn
 	state   int // 0 none, 1 open, 2 gone, 3 rejected, 4 leaked, 5 held
 	blocked bool
+	slow    bool // a request with a slow reader is outstanding
+	wwait   bool // the server's Write to this client is blocked
 	seq     int
 	sent    map[uint16]bool
 	partial []byte
@@ -76,6 +81,7 @@ type lcRun struct {
 	sdAsync   bool
 	sdSeen    int // evSdReturn events before the asynchronous Shutdown was started
 	cancelled bool
+	limit     int
 	inbound   int
 	refused   int
 	escaped   int
@@ -143,7 +149,7 @@ func runLifecycle(cfg int, script []lcOp) (events []lcEvent, extra [3]int, summa
 	r.cancel = cancel
 	w.cancelFn = cancel
 	defer cancel()
-	s := &server.Server{ReadTimeout: 10 * time.Millisecond}
+	s := &server.Server{ReadTimeout: 10 * time.Millisecond, WriteTimeout: time.Minute}
 	r.srv = s
 	if cfg&1 != 0 {
 		s.OnServeFunc = func(addr net.Addr) { w.log(evServeCb, 0, 0, 0) }
@@ -156,7 +162,7 @@ func runLifecycle(cfg int, script []lcOp) (events []lcEvent, extra [3]int, summa
 			id := remoteAddr.(memAddr).id
 			w.mu.Lock()
 			c := w.conns[id]
-			rej := c.rejectMe
+			rej := c.rejectMe || (r.limit > 0 && int(connectionCount) > r.limit)
 			ok := 1
 			if rej {
 				ok = 0
@@ -198,6 +204,20 @@ func runLifecycle(cfg int, script []lcOp) (events []lcEvent, extra [3]int, summa
 		w.logScript(evSdReturn, 0, code, 0)
 	}
 
+	burst := 0
+	if len(script) > start && script[start].op == opBurst {
+		burst = script[start].cl
+		r.limit = script[start].arg
+		start++
+		w.mu.Lock()
+		for i := 0; i < burst; i++ {
+			c := &memConn{w: w, id: -1}
+			r.lis.pending = append(r.lis.pending, c)
+			r.clients[i] = &lcClient{conn: c, sent: map[uint16]bool{}}
+		}
+		w.mu.Unlock()
+	}
+
 	go func() {
 		defer close(r.serveRet)
 		code := -1
@@ -216,6 +236,40 @@ func runLifecycle(cfg int, script []lcOp) (events []lcEvent, extra [3]int, summa
 	// Serve is inside Accept => the listener has been published
 	w.waitFor("serve accepting", func() bool { return r.lis.accepts >= 1 || r.lis.closed })
 
+	for i := 0; i < burst; i++ {
+		cl := r.clients[i]
+		c := cl.conn
+		rejected := false
+		w.waitFor("burst settled", func() bool {
+			if c.id < 0 {
+				return false
+			}
+			if r.onAccept() {
+				seen := false
+				for _, e := range w.events {
+					if e.code == evAcceptCb && e.c == c.id {
+						seen = true
+						rejected = e.b == 0
+					}
+				}
+				if !seen {
+					return false
+				}
+			}
+			if rejected {
+				return c.ownCloses >= 1
+			}
+			return c.readCalls >= 1
+		})
+		if rejected {
+			w.mu.Lock()
+			w.logLocked(lcEvent{code: evClientClosed, c: c.id})
+			w.mu.Unlock()
+			cl.state = 3
+		} else {
+			cl.state = 1
+		}
+	}
 	for _, o := range script[start:] {
 		r.step(o)
 	}
@@ -320,7 +374,7 @@ func (r *lcRun) afterShutdown(code int) {
 	// connections Shutdown has closed: its Close + the goroutine's own
 	for _, k := range r.sortedClients() {
 		cl := r.clients[k]
-		if cl.state == 1 && !cl.blocked {
+		if cl.state == 1 && !cl.blocked && !cl.wwait {
 			r.awaitGone(cl)
 		}
 	}
@@ -409,6 +463,18 @@ func (r *lcRun) step(o lcOp) {
 			r.refused = 0 // a connection was accepted after a successful Shutdown
 		}
 		cl.conn = c
+		if r.onAccept() {
+			// the verdict of the accept callback (scripted rejection or the limit) is read off the log
+			w.waitFor("accept callback", func() bool {
+				for _, e := range w.events {
+					if e.code == evAcceptCb && e.c == c.id {
+						rej = e.b == 0
+						return true
+					}
+				}
+				return false
+			})
+		}
 		switch {
 		case rej:
 			w.waitFor("reject close", func() bool { return c.closeCalls >= 1 })
@@ -430,8 +496,12 @@ func (r *lcRun) step(o lcOp) {
 		}
 	case opUnhold:
 		r.doUnhold()
-	case opSend, opPeerReset:
-		if cl.state != 1 || cl.blocked || cl.partial != nil {
+	case opResumeRead:
+		if cl.wwait {
+			r.resume(cl)
+		}
+	case opSend, opPeerReset, opSendSlow:
+		if cl.state != 1 || cl.blocked || cl.wwait || cl.partial != nil {
 			return
 		}
 		mode := o.arg
@@ -439,6 +509,15 @@ func (r *lcRun) step(o lcOp) {
 			mode = hNormal
 			w.mu.Lock()
 			cl.conn.failWrites = true
+			w.mu.Unlock()
+		}
+		if o.op == opSendSlow {
+			if mode != hNormal && mode != hBlock {
+				mode = hNormal
+			}
+			cl.slow = true
+			w.mu.Lock()
+			cl.conn.slowRead = true
 			w.mu.Unlock()
 		}
 		tid := r.newTid(cl)
@@ -453,11 +532,14 @@ func (r *lcRun) step(o lcOp) {
 		case mode == hBlock:
 			cl.blocked = true
 			w.waitFor("handler start", func() bool { return w.countLocked(evHandlerStart, cl.conn.id) > starts })
+		case o.op == opSendSlow:
+			cl.wwait = true
+			w.waitFor("write in progress", func() bool { return cl.conn.writeBlocked })
 		default:
 			r.awaitReplies(cl, 1)
 		}
 	case opPipelined:
-		if cl.state != 1 || cl.blocked || cl.partial != nil {
+		if cl.state != 1 || cl.blocked || cl.wwait || cl.partial != nil {
 			return
 		}
 		a := lcRequest(r.newTid(cl), hNormal)
@@ -465,13 +547,13 @@ func (r *lcRun) step(o lcOp) {
 		cl.conn.clSend(append(a, b...))
 		r.awaitReplies(cl, 2)
 	case opGarbage:
-		if cl.state != 1 || cl.blocked || cl.partial != nil {
+		if cl.state != 1 || cl.blocked || cl.wwait || cl.partial != nil {
 			return
 		}
 		cl.conn.clSend([]byte{0xff, 0xff, 0xff, 0xff, 0xff, 0xff, 0xff, 0xff, 0xff, 0xff, 0xff, 0xff})
 		r.awaitGone(cl)
 	case opPartial:
-		if cl.state != 1 || cl.blocked || cl.partial != nil {
+		if cl.state != 1 || cl.blocked || cl.wwait || cl.partial != nil {
 			return
 		}
 		q := lcRequest(r.newTid(cl), hNormal)
@@ -483,7 +565,7 @@ func (r *lcRun) step(o lcOp) {
 		cl.conn.clSend(q[:7])
 		w.waitFor("partial read", func() bool { return w.countLocked(evRead, cl.conn.id) > reads })
 	case opRest:
-		if cl.state != 1 || cl.blocked || cl.partial == nil {
+		if cl.state != 1 || cl.blocked || cl.wwait || cl.partial == nil {
 			return
 		}
 		cl.conn.clSend(cl.partial)
@@ -492,7 +574,7 @@ func (r *lcRun) step(o lcOp) {
 	case opRelease:
 		r.doRelease()
 	case opDisconnect:
-		if cl.state != 1 || cl.blocked {
+		if cl.state != 1 || cl.blocked || cl.wwait {
 			return
 		}
 		cl.conn.clClose()
@@ -559,11 +641,34 @@ func (r *lcRun) anyHeld() bool {
 
 func (r *lcRun) anyBlocked() bool {
 	for _, cl := range r.clients {
-		if cl.blocked {
+		if cl.blocked || cl.wwait {
 			return true
 		}
 	}
 	return false
+}
+
+// resumeAll lets every slow client read on: the blocked server writes complete
+func (r *lcRun) resumeAll() {
+	for _, k := range r.sortedClients() {
+		if cl := r.clients[k]; cl.wwait {
+			r.resume(cl)
+		}
+	}
+}
+
+func (r *lcRun) resume(cl *lcClient) {
+	r.w.mu.Lock()
+	cl.conn.resumes++
+	cl.conn.slowRead = false
+	r.w.cond.Broadcast()
+	r.w.mu.Unlock()
+	r.awaitReplies(cl, 1)
+	cl.wwait = false
+	cl.slow = false
+	if r.cancelled {
+		r.awaitGone(cl)
+	}
 }
 
 // after the serve context is cancelled every connection goroutine leaves at its next loop iteration
@@ -571,7 +676,7 @@ func (r *lcRun) afterCancel() {
 	r.cancelled = true
 	for _, k := range r.sortedClients() {
 		cl := r.clients[k]
-		if cl.state == 1 && !cl.blocked {
+		if cl.state == 1 && !cl.blocked && !cl.wwait {
 			r.awaitGone(cl)
 		}
 	}
@@ -592,6 +697,13 @@ func (r *lcRun) doRelease() {
 	r.release = make(chan struct{})
 	r.w.mu.Unlock()
 	for _, cl := range bl {
+		if cl.slow {
+			c := cl.conn
+			r.w.waitFor("write in progress", func() bool { return c.writeBlocked })
+			cl.blocked = false
+			cl.wwait = true
+			continue
+		}
 		r.awaitReplies(cl, 1)
 		cl.blocked = false
 		if r.cancelled {
@@ -605,6 +717,7 @@ func (r *lcRun) doAwaitShutdown() {
 		return
 	}
 	r.doRelease()
+	r.resumeAll()
 	code := -1
 	r.w.waitFor("shutdown return", func() bool {
 		n := 0
@@ -658,6 +771,7 @@ func (r *lcRun) finale() {
 		r.doAwaitShutdown()
 	}
 	r.doRelease()
+	r.resumeAll()
 	r.doUnhold()
 	if !r.stopped {
 		r.step(lcOp{op: opCancel})
@@ -747,6 +861,17 @@ func lcFixedScripts() [][]lcOp {
 		{{opConnect, 0, 0}, {opConnect, 1, 0}, {opConnect, 2, 0}, {opSend, 1, hBlock}, {opSend, 2, hBlock}, {opShutdownAsync, 0, 0}, {opRelease, 0, 0}, {opAwaitShutdown, 0, 0}, {opConnectRefused, 3, 0}},
 		{{opConnect, 0, 0}, {opPartial, 0, 0}, {opShutdown, 0, 0}},
 		{{opConnect, 0, 0}, {opConnectHeld, 1, 0}, {opCancel, 0, 0}, {opUnhold, 0, 0}},
+		// slow reader: Shutdown while the reply write is in progress / while the handler still runs
+		{{opConnect, 0, 0}, {opSendSlow, 0, hNormal}, {opShutdownAsync, 0, 0}, {opResumeRead, 0, 0}, {opAwaitShutdown, 0, 0}},
+		{{opConnect, 0, 0}, {opConnect, 1, 0}, {opSendSlow, 0, hBlock}, {opShutdownAsync, 0, 0}, {opRelease, 0, 0}, {opResumeRead, 0, 0}, {opAwaitShutdown, 0, 0}},
+		// connections queued back-to-back before Serve starts, accept callback with a limit
+		{{opBurst, 5, 3}, {opSend, 0, hNormal}, {opDisconnect, 1, 0}, {opConnect, 5, 0}, {opConnect, 6, 0}, {opCancel, 0, 0}},
+		{{opBurst, 4, 0}, {opSend, 3, hNormal}, {opShutdown, 0, 0}},
+		{{opBurst, 6, 2}, {opShutdown, 0, 0}, {opConnectRefused, 6, 0}},
+		// Shutdown after cancel
+		{{opConnect, 0, 0}, {opCancel, 0, 0}, {opShutdown, 0, 0}},
+		// cancel while a reply write is in progress
+		{{opConnect, 0, 0}, {opSendSlow, 0, hNormal}, {opCancel, 0, 0}, {opResumeRead, 0, 0}},
 	}
 }
 
@@ -758,6 +883,10 @@ func lcRandomScript(g *rng) []lcOp {
 	next := 0
 	stopAt := g.intn(n + 2)
 	for i := 0; i < n; i++ {
+		k0 := 0
+		if next > 0 {
+			k0 = g.intn(next)
+		}
 		if i == stopAt {
 			switch g.intn(5) {
 			case 0:
@@ -765,7 +894,7 @@ func lcRandomScript(g *rng) []lcOp {
 			case 1:
 				s = append(s, lcOp{opRelease, 0, 0}, lcOp{opShutdown, 0, 0})
 			case 2:
-				s = append(s, lcOp{opShutdownAsync, 0, 0}, lcOp{opRelease, 0, 0}, lcOp{opAwaitShutdown, 0, 0})
+				s = append(s, lcOp{opShutdownAsync, 0, 0}, lcOp{opRelease, 0, 0}, lcOp{opResumeRead, k0, 0}, lcOp{opAwaitShutdown, 0, 0})
 			case 3:
 				s = append(s, lcOp{opShutdownShortCtx, 0, 0})
 			case 4:
@@ -786,8 +915,10 @@ func lcRandomScript(g *rng) []lcOp {
 			}
 			s = append(s, lcOp{opConnect, next, rej})
 			next++
-		case 3, 4, 5:
+		case 3, 4:
 			s = append(s, lcOp{opSend, k, g.pick([]int{hNormal, hNormal, hError, hSleep, hBlock, hPanic})})
+		case 5:
+			s = append(s, lcOp{g.pick([]int{opSend, opSendSlow, opResumeRead}), k, g.pick([]int{hNormal, hBlock})})
 		case 6:
 			s = append(s, lcOp{opDisconnect, k, 0})
 		case 7:
@@ -814,7 +945,7 @@ func init() {
 			script []lcOp
 		}
 		var jobs []job
-		nrand := 6
+		nrand := 5
 		if thorough {
 			nrand = 6*10 + 18*9
 		}
